@@ -17,25 +17,38 @@ Theorem C05_once_then_repeat : forall inp its n k,
 Proof. exact once_then_repeat_structure. Qed.
 Print Assumptions C05_once_then_repeat.
 
-(* Inside the guard (no rejected break; at most one [while True:] and nothing after it; no name
-   first assigned inside [while True:] or inside a block below setup depth 0) the observable
-   trace (numbered statements, printed values) of the firmware is CPython's: the prologue once,
-   in source order, before the first pass; the body once per pass, in source order; values
-   persisting between passes - phase by phase, for every input history and every N. *)
+(* Inside the guard - no rejected break; at most one [while True:] and nothing after it; [vars_ok]:
+   no block introduces a name, and a name first assigned inside [while True:] is assigned by a
+   top-level statement of the body before anything reads it in that pass - the observable trace
+   (numbered statements, printed values) of the firmware is CPython's: the prologue once, in source
+   order, before the first pass; the body once per pass, in source order; values persisting between
+   passes - phase by phase, for every input history and every N. *)
 Theorem C05_once_then_repeat_partial : forall inp n its,
-  transl_ok its = true -> vars_persist its = true -> one_main_last its = true ->
+  transl_ok its = true -> vars_ok its = true -> one_main_last its = true ->
   forall ts tl cu ps pl pu,
   exec_phases inp n its = (ts, tl, cu) -> py_phases n its = (ps, pl, pu) ->
   obs ts = obs ps /\ concat (map obs tl) = concat (map obs pl) /\ cu = pu /\
   (no_main its = false -> map obs tl = map obs pl).
-Proof. exact once_then_repeat_guarded. Qed.
+Proof. exact once_then_repeat_da. Qed.
 Print Assumptions C05_once_then_repeat_partial.
 
 Theorem C05_trace_is_pythons_partial : forall inp n its,
-  transl_ok its = true -> vars_persist its = true -> one_main_last its = true ->
+  transl_ok its = true -> vars_ok its = true -> one_main_last its = true ->
   obs (exec inp n its) = py_exec n its.
-Proof. exact once_then_repeat_trace. Qed.
+Proof. exact once_then_repeat_trace_da. Qed.
 Print Assumptions C05_trace_is_pythons_partial.
+
+(* the simpler guard (no name at all first assigned inside [while True:]) is a special case *)
+Theorem C05_vars_persist_is_vars_ok : forall its, vars_persist its = true -> vars_ok its = true.
+Proof. exact vars_persist_ok. Qed.
+Print Assumptions C05_vars_persist_is_vars_ok.
+
+Example C05_local_assigned_first_nonvacuous :
+  transl_ok w_local_ok = true /\ vars_ok w_local_ok = true /\ vars_persist w_local_ok = false /\
+  one_main_last w_local_ok = true /\ locals_of w_local_ok = [n_t0] /\
+  py_exec 3 w_local_ok = [EVal n_t0 1; EVal n_t0 3; EVal n_t0 5] /\ vars_ok w_looplocal = false.
+Proof. exact local_ok_example. Qed.
+Print Assumptions C05_local_assigned_first_nonvacuous.
 
 Example C05_guard_nonvacuous :
   transl_ok w_good = true /\ vars_persist w_good = true /\ one_main_last w_good = true /\
@@ -47,21 +60,21 @@ Print Assumptions C05_guard_nonvacuous.
 (* Each clause of the guard is needed: the faithful model leaves CPython's trace outside it. *)
 (* a name first assigned inside [while True:] is a local of loop(): re-initialised every pass *)
 Theorem C05_looplocal_refuted : exists its inp n,
-  transl_ok its = true /\ one_main_last its = true /\ vars_persist its = false /\
+  transl_ok its = true /\ one_main_last its = true /\ vars_ok its = false /\
   obs (exec inp n its) <> py_exec n its.
 Proof. exact looplocal_refuted_ex. Qed.
 Print Assumptions C05_looplocal_refuted.
 
 (* statements written after the main loop (unreachable in Python) run once in setup() *)
 Theorem C05_postloop_refuted : exists its inp n,
-  transl_ok its = true /\ vars_persist its = true /\ one_main_last its = false /\
+  transl_ok its = true /\ vars_ok its = true /\ one_main_last its = false /\
   obs (exec inp n its) <> py_exec n its.
 Proof. exact postloop_refuted_ex. Qed.
 Print Assumptions C05_postloop_refuted.
 
 (* the body of a second top-level [while True:] is appended to loop() *)
 Theorem C05_twoloops_refuted : exists its inp n,
-  transl_ok its = true /\ vars_persist its = true /\ one_main_last its = false /\
+  transl_ok its = true /\ vars_ok its = true /\ one_main_last its = false /\
   obs (exec inp n its) <> py_exec n its.
 Proof. exact twoloops_refuted_ex. Qed.
 Print Assumptions C05_twoloops_refuted.
@@ -131,3 +144,23 @@ Example C05_housekeeping_nonvacuous :
     [[EPoll 4; EHUse RSer true; EHand 9]; [EPoll 4; EUse (RPin 5) true; EMark 2]].
 Proof. exact good_housekeeping. Qed.
 Print Assumptions C05_housekeeping_nonvacuous.
+
+(* ---------------------------------------------------------------- source order, read off the trace *)
+(* For every accepted program (no other guard): when the top-level statements outside the main loop
+   are straight-line, the numbered statements of setup() are exactly those statements, once each, in
+   source order - INCLUDING the ones written after the main loop and NOT the body; when the loop
+   body (the concatenation of all top-level [while True:] bodies) is straight-line, every pass shows
+   exactly its numbered statements, once each, in source order. *)
+Theorem C05_source_order : forall inp n its, transl_ok its = true ->
+  (forallb flat_stmt (fst (split its)) = true ->
+     marks_of (fst (fst (exec_phases inp n its))) = flat_map marks_stmt (fst (split its))) /\
+  (forallb flat_stmt (snd (split its)) = true ->
+     Forall (fun t => marks_of t = flat_map marks_stmt (snd (split its))) (snd (fst (exec_phases inp n its)))).
+Proof. exact source_order. Qed.
+Print Assumptions C05_source_order.
+
+Example C05_source_order_nonvacuous :
+  marks_of (fst (fst (exec_phases no_input 2 w_postloop))) = [1; 3] /\
+  map marks_of (snd (fst (exec_phases no_input 2 w_twoloops))) = [[2; 3]; [2; 3]].
+Proof. exact source_order_example. Qed.
+Print Assumptions C05_source_order_nonvacuous.
